@@ -38,9 +38,12 @@ import dawgie.pl.scan  # noqa: E402
 PROPERTY = 'C09'
 BOUND = (
     'acyclic engines with <= 4 algorithms (task/analysis/regress) over <= 3 packages, <= 2 state vectors x <= 2 '
-    'values each, inputs at ALG_REF/SV_REF/V_REF level, <= 1 feedback reference, three package styles; every '
+    'values each, inputs at ALG_REF/SV_REF/V_REF level, <= 2 feedback references, three package styles; every '
     'DAG x package-partition skeleton with <= 3 algorithms and every 4-algorithm DAG (45 + 64; thorough: x every kind '
-    'assignment resp. x every partition, 1119 + 896) with the other attributes cycled, plus seeded random engines (300 quick / 10^4 thorough)'
+    'assignment resp. x every partition, 1119 + 896) with the other attributes cycled, plus seeded random engines (300 quick / 10^4 thorough); '
+    'directed part (both tiers, enumerated): every non-empty DAG x partition with 2-3 algorithms (37) with names that are string prefixes '
+    'of one another (algorithms cal/cal_fit/cal_fit_x, alternately also packages t/t1/t12, state vectors s/s1, values v/v1), and every '
+    '3-algorithm DAG x partition (40) with two feedback references from different consumers (thorough: + the 64 4-algorithm DAGs of each kind)'
 )
 CLAUSES = [
     'C09.construct',
@@ -50,6 +53,7 @@ CLAUSES = [
     'C09.ancestry',
     'C09.feedback.noedge',
     'C09.feedbacks',
+    'C09.feedback.attr',
 ]
 TREES = {2: 'at', 3: 'svt', 1: 'tt', 4: 'vt'}
 
@@ -126,6 +130,13 @@ def compare(spec, construct):
                     )
             elif g in (2, 4):
                 bad.append(('C09.ancestry', f'ancestry:{attr}:absent', {n.tag: None}, {n.tag: sorted(want['anc'][g][n.tag])}))
+            # the node's own feedback attribute: exactly the producers its algorithm(s) declare as fed back
+            fbs = n.get('feedback')
+            got = sorted(f.tag for f in fbs) if fbs else []
+            exp = sorted(want['fb'][g][n.tag])
+            if got != exp:
+                word = 'extra' if set(got) - set(exp) else 'missing'
+                bad.append(('C09.feedback.attr', f'feedback-attr:{attr}:{word}', {n.tag: got}, {n.tag: exp}))
     fbs = construct.feedbacks
     if sorted(fbs) != sorted(want['fed']):
         bad.append(('C09.feedbacks', 'feedbacks:keys', sorted(fbs), sorted(want['fed'])))
@@ -192,7 +203,7 @@ def _check_once(shop, spec, via, real_dot, limit):
 # ---------------------------------------------------------------------------
 
 
-def _cycled(idx, edges, parts, kinds=None):
+def _cycled(idx, edges, parts, kinds=None, names=None, two_feedbacks=False):
     '''attributes that are not enumerated are drawn from a generator fixed by the case index (not the seed)'''
     rng = random.Random(7919 * idx + 13)
     n = len(parts)
@@ -200,6 +211,12 @@ def _cycled(idx, edges, parts, kinds=None):
     if n > 1 and idx % 3 != 2:
         i = rng.randrange(0, n - 1)
         fb = (i, rng.randrange(i + 1, n), rng.randrange(3), rng.randrange(2), rng.randrange(2))
+    if two_feedbacks and n > 2:
+        # two consumers (0 and 1), producers later in the order, reference levels cycled
+        fb = [
+            (0, 1 + idx % 2, rng.randrange(3), rng.randrange(2), rng.randrange(2)),
+            (1, 2, rng.randrange(3), rng.randrange(2), rng.randrange(2)),
+        ]
     return G.make_spec(
         edges,
         parts,
@@ -209,6 +226,7 @@ def _cycled(idx, edges, parts, kinds=None):
         feedback=fb,
         style=G.STYLES[idx % 3],
         double={k for k in range(len(edges)) if rng.random() < 0.2},
+        names=names,
     )
 
 
@@ -232,6 +250,22 @@ def cases(tier, seed):
         for parts in p4 if tier == 'thorough' else [p4[k % len(p4)]]:
             out.append(('enum', _cycled(idx, edges, parts)))
             idx += 1
+    # directed: names that are string prefixes of one another; two feedback references
+    namesets = [G.NAMESETS['alg-prefix'], G.NAMESETS['all-prefix']]
+    for n in (2, 3, 4) if tier == 'thorough' else (2, 3):
+        pn = G.partitions(n)
+        for k, edges in enumerate(G.dags(n)):
+            if not edges:
+                continue
+            for parts in pn if n < 4 else [pn[k % len(pn)]]:
+                out.append(('enum', _cycled(idx, edges, parts, names=namesets[idx % 2])))
+                idx += 1
+    for n in (3, 4) if tier == 'thorough' else (3,):
+        pn = G.partitions(n)
+        for k, edges in enumerate(G.dags(n)):
+            for parts in pn if n < 4 else [pn[k % len(pn)]]:
+                out.append(('enum', _cycled(idx, edges, parts, two_feedbacks=True)))
+                idx += 1
     n_enum = len(out)
     total = 10000 if tier == 'thorough' else n_enum + 300
     k = 0
@@ -303,7 +337,10 @@ def run(tier: str, seed: int) -> dict:
             'edge set over a fixed topological order x every spread over <= 3 packages for 1-3 algorithms '
             'and every 4-algorithm edge set (thorough: x every kind assignment resp. x every partition), remaining attributes (kinds, '
             'state-vector layouts, reference level per edge, doubled references, one feedback reference, package '
-            'style, scan vs direct factories) fixed by the case index; sampled part: seeded random engines with '
+            'style, scan vs direct factories) fixed by the case index; directed part: the same skeletons with '
+            'prefix-related names (every non-empty 2-3 algorithm DAG x partition) and with two feedback references '
+            '(every 3-algorithm DAG x partition); for every node of every tree the feedback attribute is compared '
+            'with the declared fed-back producers of that node; sampled part: seeded random engines with '
             '2-4 algorithms; distinct = distinct spec dicts'
         ),
         'exhaustive': False,
